@@ -303,8 +303,8 @@ CONFIGS = {
 }
 
 
-def make_world(rng, wid, n, config=None):
-    ids = rng.sample(ID_POOL, n)
+def make_world(rng, wid, n, config=None, ids=None):
+    ids = ids or rng.sample(ID_POOL, n)
     return dict(
         wid=wid,
         ids=ids,
@@ -318,8 +318,25 @@ def make_world(rng, wid, n, config=None):
     )
 
 
+# ids that END in a whitespace character other than " " (possible: the map is
+# split on " " only).  Model encoding: minus the label of the stripped id.
+WS_IDS = ["a\t", "utt1\t", "Q\xa0"]
+FINDING_WS = "C10-id-trailing-whitespace"
+
+
 def label(world, utt):
-    return ID_POOL.index(utt) + 1 if utt in ID_POOL else -1
+    if utt in ID_POOL:
+        return ID_POOL.index(utt) + 1
+    if utt in WS_IDS and utt.strip() in ID_POOL:
+        return -(ID_POOL.index(utt.strip()) + 1)
+    return -1000
+
+
+def utt_of_label(world, lab):
+    for u in world["ids"]:
+        if label(world, u) == lab:
+            return u
+    raise KeyError(lab)
 
 
 def world_dir(world):
@@ -503,7 +520,7 @@ def run_history(server, world, hist, hid, fresh=False):
             stat0[f] = (s.st_mtime_ns, s.st_ino, s.st_size)
         broken = None
         if kc == 2:
-            broken = links[world["ids"].index(ID_POOL[a - 1])]
+            broken = links[world["ids"].index(utt_of_label(world, a))]
             os.unlink(broken)
         job = job_for(world, base, mapfile, world["seed"], None if kc == 2 else a, kc == 1, w, cut, "s%d" % step)
         if os.path.exists(job["evlog"]):
@@ -640,13 +657,13 @@ def check_reference(ctx, world):
     ref0, st0, mf0 = refs[0]
     spec = {k: v for k, v in world.items() if not k.startswith("_")}
     names = [fname(world, u) for u in world["ids"]]
-    if st0 != "exit 0" or sorted(ref0) != sorted(names) or mf0.split("\n")[:-1] != world["ids"]:
+    if st0 != "exit 0" or sorted(ref0) != sorted(names) or sorted(mf0.split("\n")[:-1]) != sorted(world["ids"]):
         ctx.fail("uninterrupted run is wrong: status %s, files %r, manifest %r" % (st0, sorted(ref0), mf0),
                  dict(world=spec), kind="impl")
         return False
     for w, (files, st, mf) in sorted(byw.items()):
         ctx.count("workers:ref:%d" % w)
-        if files != ref0 or mf != mf0 or st != "exit 0":
+        if files != ref0 or sorted(mf.split("\n")) != sorted(mf0.split("\n")) or st != "exit 0":
             diff = sorted(f for f in set(files) | set(ref0) if files.get(f) != ref0.get(f))
             ctx.fail("output depends on --num-workers: %d vs 0 differ in %r (status %s)" % (w, diff or "manifest", st),
                      dict(world=spec, workers=[0, w], differing_files=diff, check="workers_irrelevant"), kind="impl")
@@ -686,8 +703,10 @@ def run(ctx):
     worlds, plan = [], []
     cfgs = sorted(CONFIGS)
 
-    def add_world(n, config, **kw):
-        w = make_world(r, len(worlds), n, config)
+    def add_world(n, config, ids=None, probe=None, **kw):
+        w = make_world(r, len(worlds), n, config, ids=ids)
+        if probe:
+            w["probe"] = probe
         worlds.append(w)
         for h in gen_histories(ctx, w, **kw):
             plan.append((w, h))
@@ -709,6 +728,10 @@ def run(ctx):
         add_world(3, "si_dither", exhaustive_ws=(3,), n_random=10)
         add_world(4, "stft_dither_deltas", exhaustive_ws=(0,), n_random=30)
         add_world(4, "raw_dither_preemph", exhaustive_ws=(1,), kinds=(1,), n_random=20)
+    # ids ending in whitespace that str.strip() removes (finding, see NOTES.md)
+    add_world(3, "raw_dither", ids=["a\t", "a", "b+c"], probe=FINDING_WS, exhaustive_ws=(0,), n_random=ctx.scale(4, 40))
+    if ctx.thorough:
+        add_world(3, "stft_dither", ids=["utt1", "Q\xa0", "utt1\t"], probe=FINDING_WS, exhaustive_ws=(0, 2), n_random=40)
     ctx.log("%d worlds, %d histories, %d invocations" % (len(worlds), len(plan), sum(len(h) for _, h in plan)))
     nproc = 12
     servers = [Server() for _ in range(nproc)]
@@ -766,6 +789,7 @@ def run(ctx):
                     model[i] = C.parse_coq(a)
     # ---- compare, record coverage
     nfail = 0
+    nprobe = [0]
     for i, (w, h) in enumerate(plan):
         if results.get(i) is None:
             continue
@@ -784,10 +808,16 @@ def run(ctx):
             ctx.count("last-op:%s" % {-1: "none", 0: "compute", 1: "save-begin(torn file)", 2: "save-end", 3: "manifest-write", 4: "manifest-flush"}[last])
             ctx.count("exit:%s" % st["status"])
         for b in bad[:3]:
-            if nfail < 40:
+            if w.get("probe"):
+                nprobe[0] += 1
+                if nprobe[0] > 4:
+                    continue
+            if nfail < 40 or w.get("probe"):
                 ctx.fail("property violated on the implementation: %s" % b["what"],
-                         dict(world=spec, history=[list(x) for x in h], violation=b, check="oracle"), kind="impl")
-            nfail += 1
+                         dict(world=spec, history=[list(x) for x in h], violation=b, check="oracle"), kind="impl",
+                         key=w.get("probe"))
+            if not w.get("probe"):
+                nfail += 1
         if i in model:
             exp = model[i]
             for step, st in enumerate(stages):
